@@ -467,7 +467,7 @@ pub fn run(ctx: &mut Ctx) -> Result<(), Violation> {
                 (DNF, CNF, Shannon/ite bottom-up, xor of monomials, nand-only, and a detour through exists/all/counting/fp/model/retain), each in a shared and in a fresh \
                 environment; every result must be `==` (and hash-equal) to a reduced ordered diagram built independently from plain enum values, be ordered and reduced, \
                 and a neighbouring function must compare unequal. Stage histories: random operation histories (all public operations, old handles reused) run in two environments; \
-                every result must equal plain::build(table(result)), results are pairwise equal iff their tables are equal. Non-trivial = route case whose function depends on >= 2 variables, \
+                every result must equal plain::build(table(result)), results are pairwise equal iff their tables are equal. A third stage runs histories whose operands cross two environments (only ==, hash, ordered, reduced are judged there). Non-trivial = route case whose function depends on >= 2 variables, \
                 or a history of >= 10 operations with >= 4 operation kinds including a quantifier/counting/fp/model/retain; distinct by (table, ids) resp. operation list."
         .to_string();
     ctx.assume("the table of a result is read by the harness walker; the expected diagram is built from that table with plain enum values (no BDDEnv)");
